@@ -17,8 +17,11 @@ Inductive ty :=
 | TOpt (t : ty)                          (* Optional[t] = t | None — handled by the Union hook *)
 | TData (c : N)                          (* a dataclass, by id in the class table *)
 | TEnum (vals : list str)                (* class E(str, Enum) with these values; a member is held as VStr value *)
-| TFwd (c : N).                          (* an unresolved ForwardRef("C") left inside a generic (List["C"]):
+| TFwd (c : N)                          (* an unresolved ForwardRef("C") left inside a generic (List["C"]):
                                             cattrs has no hook for it (finding F03c) *)
+| TWrap (t : ty).                        (* generated JSON wrapper class for `additionalProperties: t`: a dataclass
+                                            with one attribute _data: dict[str, t] and its own CLASS-level hooks
+                                            (cattrs prefers them to the predicate hooks of the registration walk) *)
 
 Inductive json :=
 | JNull | JBool (b : bool) | JInt (z : Z) | JFloat (z : Z) | JStr (s : str)
@@ -30,7 +33,8 @@ Inductive value :=
 | VDatetime (iso : str)                  (* a datetime, represented by its own .isoformat() *)
 | VDate (iso : str)
 | VList (l : list value) | VDict (kvs : list (str * value))
-| VData (c : N) (fs : list (str * value)).   (* instance of class c: attribute name -> value *)
+| VData (c : N) (fs : list (str * value))    (* instance of class c: attribute name -> value *)
+| VWrap (kvs : list (str * value)).          (* instance of a wrapper class: its _data *)
 
 Record field := { f_name : str; f_ty : ty; f_default : option value }.   (* None = required *)
 Record cls := { c_id : N; c_fields : list field;
@@ -61,6 +65,7 @@ Fixpoint ty_eqb (a b : ty) : bool :=
   | TList x, TList y | TDict x, TDict y | TOpt x, TOpt y => ty_eqb x y
   | TData c, TData d | TFwd c, TFwd d => N.eqb c d
   | TEnum x, TEnum y => list_eqb str_eqb x y
+  | TWrap x, TWrap y => ty_eqb x y
   | _, _ => false
   end.
 
@@ -107,6 +112,13 @@ Fixpoint value_eqb (a b : value) : bool :=
          | (k, p) :: x', (k', q) :: y' => str_eqb k k' && value_eqb p q && go x' y'
          | _, _ => false
          end) x y
+  | VWrap x, VWrap y =>
+      (fix go (x y : list (str * value)) : bool :=
+         match x, y with
+         | [], [] => true
+         | (k, p) :: x', (k', q) :: y' => str_eqb k k' && value_eqb p q && go x' y'
+         | _, _ => false
+         end) x y
   | VData c x, VData d y =>
       N.eqb c d &&
       (fix go (x y : list (str * value)) : bool :=
@@ -137,7 +149,7 @@ Fixpoint project (v : value) : result json :=
   | VDict kvs =>
       bind (map_result (fun kv => bind (project (snd kv)) (fun j => Ok (fst kv, j))) kvs)
            (fun kvs' => Ok (JObj kvs'))
-  | VBytes _ | VDatetime _ | VDate _ | VData _ _ => Err
+  | VBytes _ | VDatetime _ | VDate _ | VData _ _ | VWrap _ => Err
   end.
 
 Fixpoint strip_opt (T : ty) : ty := match T with TOpt X => strip_opt X | _ => T end.
@@ -147,7 +159,7 @@ Definition mem_N (c : N) (l : list N) : bool := existsb (N.eqb c) l.
 Fixpoint ty_classes (T : ty) : list N :=
   match T with
   | TData c | TFwd c => [c]               (* get_type_hints resolves the reference for registration *)
-  | TList X | TDict X | TOpt X => ty_classes X
+  | TList X | TDict X | TOpt X | TWrap X => ty_classes X      (* the walk descends into _data: dict[str, X] *)
   | _ => []
   end.
 
@@ -226,6 +238,7 @@ Section Conv.
     | TDatetime => structure_datetime s
     | TDate => match date_parse s with Some c => Ok (VDate c) | None => Err end
     | TUuid | TTime | TFwd _ => Err              (* StructureHandlerNotFoundError (F03a, F03c) *)
+    | TWrap _ => Err                             (* wrapper hook: 'str' object has no attribute 'items' *)
     | TEnum vals => if mem_str s vals then Ok (VStr s) else Err    (* E(value): ValueError when not a member *)
     | TAny => Ok (VStr s)
     | TList X => if eager_bad X then Err
@@ -331,6 +344,14 @@ Section Conv.
         | _ => Err
         end
     | TData c => structure_data j kd c
+    | TWrap X =>
+        (* _structure_<wrapper>: None -> empty wrapper; else {k: converter.structure(v, X) for k, v in data.items()} *)
+        match j with
+        | JNull => Ok (VWrap [])
+        | JObj _ => bind (map_result (fun kv => bind (snd kv X) (fun v => Ok (fst kv, v))) kd)
+                         (fun l => Ok (VWrap l))
+        | _ => Err
+        end
     | TOpt _ => Err                    (* not reached: Optional is flattened by strip_opt *)
     end.
 
@@ -344,6 +365,7 @@ Section Conv.
             match strip_opt X with
             | TData c => match j with JObj _ => structure_data j kd c | _ => Err end
             | TDict TAny => match j with JObj _ => Ok (inject j) | _ => Err end
+            | TWrap W => match j with JObj _ => structure_nonopt j kl kd (TWrap W) | _ => Err end   (* a dataclass variant *)
             | X' => structure_nonopt j kl kd X'
             end
         end
@@ -393,6 +415,15 @@ Section Conv.
         | VDict _ => bind (map_result (fun kv => bind (snd kv TAny) (fun j => Ok (fst kv, j))) kd)
                           (fun l => Ok (JObj l))
         | VData c _ => unstructure_data c kd
+        | VWrap _ => bind (map_result (fun kv => bind (snd kv TAny) (fun j => Ok (fst kv, j))) kd)
+                          (fun l => Ok (JObj l))
+        end
+    | TWrap _ =>
+        (* _unstructure_<wrapper>: {k: converter.unstructure(v)} — values by their RUNTIME class *)
+        match v with
+        | VWrap _ => bind (map_result (fun kv => bind (snd kv TAny) (fun j => Ok (fst kv, j))) kd)
+                          (fun l => Ok (JObj l))
+        | _ => Err
         end
     | TList X =>
         match v with
@@ -428,6 +459,7 @@ Section Conv.
     | VList l => unstructure_node v (map unstructure l) []
     | VDict kvs => unstructure_node v [] (map (fun kv => (fst kv, unstructure (snd kv))) kvs)
     | VData c fs => unstructure_node v [] (map (fun kv => (fst kv, unstructure (snd kv))) fs)
+    | VWrap kvs => unstructure_node v [] (map (fun kv => (fst kv, unstructure (snd kv))) kvs)
     | _ => unstructure_node v [] []
     end.
   End WithUReg.
@@ -441,7 +473,7 @@ Section Conv.
      (Optional[Dict[str, Any]] returns the raw document, covered by the correspondence only) *)
   Fixpoint ty_ok (T : ty) : bool :=
     match T with
-    | TUuid | TTime | TFwd _ => false
+    | TUuid | TTime | TFwd _ | TWrap _ => false    (* wrapper classes: correspondence and oracle only *)
     | TList X | TDict X => ty_ok X
     | TOpt X => ty_ok X && match X with TOpt _ | TDict TAny | TAny => false | _ => true end
     | _ => true
@@ -514,10 +546,19 @@ Section Conv.
           | Err => ValueError
           end).
 
+  (* classes of the instances directly held by a wrapper (its declared value type is not part of the value) *)
+  Definition held_classes (kvs : list (str * value)) : list N :=
+    flat_map (fun kv => match snd kv with VData c _ => [c] | _ => [] end) kvs.
+
   (* converter.unstructure(instance): no declared type at the root = dispatch on the class *)
   Definition unstructure_to_dict (st : state) (v : value) : state * outcome json :=
     let st' := match v with
                | VData c _ => {| sreg_of := sreg_of st; ureg_of := reach (TData c) ++ ureg_of st |}
+               | VWrap kvs =>
+                   (* a wrapper is a dataclass: the walk registers the classes of _data's value annotation;
+                      approximated by the classes of the values actually held (the others cannot show in this output) *)
+                   {| sreg_of := sreg_of st;
+                      ureg_of := flat_map (fun c => reach (TData c)) (held_classes kvs) ++ ureg_of st |}
                | _ => st          (* list / dict roots register nothing *)
                end in
     (st', match unstructure (ureg_of st') v TAny with
